@@ -23,7 +23,7 @@ RULE = (
     "with a low-cardinality first field. Goodness of fit per configuration, independence per salt pair (absent / empty / "
     "ASCII / non-ASCII / differing in the last character / one a prefix of the other). distinct_nontrivial = distinct "
     "configurations whose chi-square test had all expected cell counts >= 5 after merging."
-    ' Added later: exact binomial test (both tails, 1e-9) for hold-back groups of share 1e-6..2e-5; several hundred realistic salts per shard on the same 64 units (no two assignment vectors may coincide); whole-number weights summing to 1e8..1e20, weights around 1e-12, salts sharing their first 32..255 characters, repeated labels, canonical time-ordered / counter UUIDs and UUID objects.'
+    ' Added later: salt families url / commented / spaced on fresh and on long-lived recompiled evaluators (round 9); exact binomial test (both tails, 1e-9) for hold-back groups of share 1e-6..2e-5; several hundred realistic salts per shard on the same 64 units (no two assignment vectors may coincide); whole-number weights summing to 1e8..1e20, weights around 1e-12, salts sharing their first 32..255 characters, repeated labels, canonical time-ordered / counter UUIDs and UUID objects.'
 )
 ASSUMPTIONS = [
     "significance 1e-9 per test; < 10^4 tests per run: a correct implementation alarms with probability < 1e-5 per run; "
